@@ -64,6 +64,19 @@ type Event struct {
 	Seq   uint32
 }
 
+// tags: column names that are concatenations of other column names (name + space = namespace, a + b = ab):
+// the sorted names of the column sets {namespace} and {name, space} (and {ab}, {a, b}) concatenate to the same
+// text, so only the separator in columnsKey keeps their groups apart.
+type Tag struct {
+	Id        int64 `sql:",primary"`
+	Name      string
+	Space     string
+	Namespace string
+	A         int64
+	B         int64
+	Ab        int64
+}
+
 // ColDesc describes a column to the harness and to the model.
 type ColDesc struct {
 	Name         string
@@ -107,6 +120,20 @@ var Tables = []*TableDesc{
 		{"tag", "Tag", "Label", false, false, fakesql.Text},
 		{"seq", "Seq", "uint32", false, false, fakesql.Int},
 	}},
+	{Name: "tags", Auto: true, Proto: Tag{}, Cols: []ColDesc{
+		{"id", "Id", "int64", true, false, fakesql.Int},
+		{"name", "Name", "string", false, false, fakesql.Text},
+		{"space", "Space", "string", false, false, fakesql.Text},
+		{"namespace", "Namespace", "string", false, false, fakesql.Text},
+		{"a", "A", "int64", false, false, fakesql.Int},
+		{"b", "B", "int64", false, false, fakesql.Int},
+		{"ab", "Ab", "int64", false, false, fakesql.Int},
+	}},
+}
+
+// CollidingSets: column sets of a table whose sorted names concatenate to the same text.
+var CollidingSets = map[string][][][]string{
+	"tags": {{{"namespace"}, {"name", "space"}}, {{"ab"}, {"a", "b"}}},
 }
 
 func TableByName(n string) *TableDesc {
